@@ -16,6 +16,7 @@ import (
 	"runtime"
 	"runtime/debug"
 	"sort"
+	"strconv"
 	"strings"
 	"sync"
 	"sync/atomic"
@@ -138,7 +139,9 @@ var srTag *log.Tag
 
 // srLog is the single call site: the same statement logs concurrently and alone.
 func srLog(ctx context.Context, id int64, size int) {
-	log.Info(ctx, srTag, log.Int("id", id), log.String("pad", strings.Repeat(string(rune('a'+id%26)), size)), log.Int("end", id))
+	log.Info(ctx, srTag, log.Int("id", id), log.String("pad", strings.Repeat(string(rune('a'+id%26)), size)),
+		log.Ints("items", []int64{id, id + 1, id + 2}), log.Object("user", log.String("name", "u"+strconv.FormatInt(id, 10)), log.Int("n", id)),
+		log.Int("end", id))
 }
 
 func cmdSyncRec(f hx.Flags, r *hx.Result) {
@@ -178,7 +181,7 @@ func cmdSyncRec(f hx.Flags, r *hx.Result) {
 	}
 	defer out.Close()
 	written := 0
-	sinks := []string{"console", "slowsink", "slowsink+loggerlayout", "file", "rolling"}
+	sinks := []string{"console", "slowsink", "slowsink+loggerlayout", "file", "rolling", "console+slowsink"}
 	layouts := []string{"TextLayout", "JSONLayout"}
 	ctx := context.Background()
 	for run := 0; run < runs && !hx.Stopped(); run++ {
@@ -207,6 +210,11 @@ func cmdSyncRec(f hx.Flags, r *hx.Result) {
 		case "slowsink":
 			cfg["appender.out.type"] = "SlowSink"
 			cfg["appender.out.layout.type"] = layout
+		case "console+slowsink": // both layouts at once on the shared pools
+			cfg["appender.out.type"] = "Console"
+			cfg["appender.out.layout.type"] = "TextLayout"
+			cfg["appender.out2.type"] = "SlowSink"
+			cfg["appender.out2.layout.type"] = "JSONLayout"
 		case "slowsink+loggerlayout":
 			cfg["appender.out.type"] = "SlowSink"
 			ex["layout.type"] = layout
@@ -223,7 +231,11 @@ func cmdSyncRec(f hx.Flags, r *hx.Result) {
 			cfg["appender.out.maxAge"] = "100"
 			cfg["appender.out.layout.type"] = layout
 		}
-		cfg.AddLogger("lg", "Logger", "", "sync_tag", []sys.Ref{{Ref: "out"}}, false, ex)
+		refs := []sys.Ref{{Ref: "out"}}
+		if sinkKind == "console+slowsink" {
+			refs = append(refs, sys.Ref{Ref: "out2"})
+		}
+		cfg.AddLogger("lg", "Logger", "", "sync_tag", refs, len(refs) > 1, ex)
 		if err := log.Refresh(cfg.Map(nil)); err != nil {
 			r.SetInfra("syncrec refresh: %v", err)
 			return
@@ -279,6 +291,8 @@ func cmdSyncRec(f hx.Flags, r *hx.Result) {
 		switch sinkKind {
 		case "console":
 			writes = con.writes
+		case "console+slowsink":
+			writes = append(append([][]byte(nil), con.writes...), slowSinkLog.writes...)
 		case "slowsink", "slowsink+loggerlayout":
 			writes = slowSinkLog.writes
 		default:
